@@ -1,7 +1,10 @@
 // galloc.hpp — guarded counting aws_allocator used by the harnesses.
 //
-// every block = [64-byte front canary | payload | 64-byte rear canary]; payload
-// pre-filled with 0xA5; canaries verified on release / realloc / check_all();
+// every block = [64-byte front canary | payload]; the payload ends exactly at the end of the
+// malloc block, so that AddressSanitizer's redzone follows it directly and a one-byte read or
+// write past the payload is reported (a rear canary would hide small over-reads from ASan; all
+// flavours are built with ASan).  Payload pre-filled with 0xA5; the front canary is verified on
+// release / realloc / check_all();
 // live-block table for balance checks; a release observer sees (payload,size)
 // before the block is scribbled with 0xDD and freed.  Requests above a ceiling
 // abort ("generator bug"): out-of-memory is fatal by design in aws-c-common, so
@@ -38,7 +41,8 @@ struct RawMutex {
 #endif
 };
 
-static const size_t CANARY = 64;
+static const size_t CANARY = 64;  // front
+static const size_t REAR = 0;     // see above
 static const size_t CEILING = 256u << 20;
 
 struct Block {
@@ -69,13 +73,13 @@ inline unsigned char front_byte(uintptr_t p, size_t i) { return (unsigned char)(
 inline void set_canaries(unsigned char *raw, size_t size) {
     uintptr_t p = (uintptr_t)(raw + CANARY);
     for (size_t i = 0; i < CANARY; i++) raw[i] = front_byte(p, i);
-    for (size_t i = 0; i < CANARY; i++) raw[CANARY + size + i] = front_byte(p, i + 64);
+    for (size_t i = 0; i < REAR; i++) raw[CANARY + size + i] = front_byte(p, i + 64);
 }
 inline bool check_canaries(const unsigned char *raw, size_t size) {
     uintptr_t p = (uintptr_t)(raw + CANARY);
     for (size_t i = 0; i < CANARY; i++)
         if (raw[i] != front_byte(p, i)) return false;
-    for (size_t i = 0; i < CANARY; i++)
+    for (size_t i = 0; i < REAR; i++)
         if (raw[CANARY + size + i] != front_byte(p, i + 64)) return false;
     return true;
 }
@@ -93,7 +97,7 @@ inline void *g_acquire(struct aws_allocator *, size_t size) {
         fprintf(stderr, "galloc: request of %zu bytes above ceiling — generator bug (OOM is outside every domain)\n", size);
         abort();
     }
-    unsigned char *raw = (unsigned char *)malloc(size + 2 * CANARY);
+    unsigned char *raw = (unsigned char *)malloc(size + CANARY + REAR);
     if (!raw) abort();
     memset(raw + CANARY, 0xA5, size);
     set_canaries(raw, size);
